@@ -135,5 +135,51 @@ def _task(inplace):
     )
 
 
+def _align_axes_task():
+    """AbelianArray.align_axes(other, axes) hands the two operands and the two axis tuples to
+    drop_misaligned_sectors; an axis may be passed on as given or normalised, but then modulo the rank of ITS
+    operand (negative axes count from the end of the operand they belong to)."""
+    from pyvc.core import SymSeq
+
+    def body(it):
+        ctx = it.ctx
+        cls = it.get_class("abelian_core", "AbelianArray")
+        for na, nb, axes in ((2, 3, ((1,), (-3,))), (3, 4, ((1, 2), (-4, -3))), (4, 2, ((-1, 0), (0, -1))), (3, 3, ((0, -1), (2, -2))), (2, 4, ((), ()))):
+            a, b = SymObj(cls, tag="a"), SymObj(cls, tag="b")
+            a.fields["_indices"] = tuple(SV(ctx.fresh(f"a_ix{i}", TInt), TInt) for i in range(na))
+            b.fields["_indices"] = tuple(SV(ctx.fresh(f"b_ix{i}", TInt), TInt) for i in range(nb))
+            log = []
+            res = (SymObj(cls, tag="ra"), SymObj(cls, tag="rb"))
+
+            def dms(it_, args, kw, log=log, res=res):
+                log.append((args, kw))
+                return res
+
+            it.summaries["abelian_core.drop_misaligned_sectors"] = dms
+            m, _ = cls.lookup("align_axes")
+
+            def post(r, a=a, b=b, na=na, nb=nb, axes=axes, log=log, res=res):
+                out = [("aligned_once", len(log) == 1)]
+                if len(log) != 1:
+                    return out
+                args, kw = log[0]
+                full = dict(zip(("a", "b", "axes_a", "axes_b", "inplace"), args))
+                full.update(kw)
+                conc = lambda v: tuple(v) if isinstance(v, (tuple, list)) and all(isinstance(z, int) for z in v) else None  # noqa: E731
+                ga, gb = conc(full.get("axes_a")), conc(full.get("axes_b"))
+                out += [
+                    ("operands_passed_in_order", full.get("a") is a and full.get("b") is b),
+                    ("axes_of_the_first_operand_as_given_or_normalised_by_its_own_rank", ga is not None and len(ga) == len(axes[0]) and all(g == x or g == x % na for g, x in zip(ga, axes[0]))),
+                    ("axes_of_the_second_operand_as_given_or_normalised_by_its_own_rank", gb is not None and len(gb) == len(axes[1]) and all(g == x or g == x % nb for g, x in zip(gb, axes[1]))),
+                    ("out_of_place", not full.get("inplace", False)),
+                    ("returns_the_aligned_pair", r is res),
+                ]
+                return out
+
+            check_call(it, f"align_axes[ranks={na},{nb},axes={axes}]".replace(" ", ""), m, [a, b, axes], post=post)
+
+    return Task("C06.align_axes.entry", ["C06", "C02", "C01"], ["abelian_core.AbelianArray.align_axes"], body, assumes=["contract of drop_misaligned_sectors (this module, rank 2; bounded tier above)"])
+
+
 def tasks():
-    return [_task(False), _task(True)]
+    return [_task(False), _task(True), _align_axes_task()]
